@@ -7,8 +7,8 @@ From BP Require Import Base.Chars Model.Blocks.
 Import ListNotations.
 
 Record libst := mklib { lrev : list block;                  (* blocks, most recent first *)
-                        ents : list (str * block);          (* _entries_by_key, insertion order *)
-                        strs : list (str * block) }.        (* _strings_by_key *)
+                        ents : list (str * block);          (* _entries_by_key, most recent first (keys are unique) *)
+                        strs : list (str * block) }.        (* _strings_by_key, most recent first *)
 Definition lib0 : libst := mklib [] [] [].
 
 Definition dup_hdr (h : hdr) : hdr := mkhdr (sl h) (raw h) [].
@@ -18,19 +18,23 @@ Definition add_block (l : libst) (b : block) : libst :=
   | BEntry h _ k _ =>
       match dict_get (ents l) k with
       | Some prev => mklib (BDupKey (dup_hdr h) k prev b :: lrev l) (ents l) (strs l)
-      | None => mklib (b :: lrev l) (ents l ++ [(k, b)]) (strs l)
+      | None => mklib (b :: lrev l) ((k, b) :: ents l) (strs l)
       end
   | BString h k _ =>
       match dict_get (strs l) k with
       | Some prev => mklib (BDupKey (dup_hdr h) k prev b :: lrev l) (ents l) (strs l)
-      | None => mklib (b :: lrev l) (ents l) (strs l ++ [(k, b)])
+      | None => mklib (b :: lrev l) (ents l) ((k, b) :: strs l)
       end
   | _ => mklib (b :: lrev l) (ents l) (strs l)
   end.
 
 Definition lib_add_all (bs : list block) (l : libst) : libst := fold_left add_block bs l.
 Definition lib_of (bs : list block) : libst := lib_add_all bs lib0.
-Definition lblocks (l : libst) : list block := rev (lrev l).
+Definition lblocks (l : libst) : list block := rv (lrev l).
+
+(* dict views in insertion order *)
+Definition entries_dict (l : libst) : list (str * block) := rv (ents l).
+Definition strings_dict (l : libst) : list (str * block) := rv (strs l).
 
 (* Library(blocks=bs).blocks *)
 Definition rebuild (bs : list block) : list block := lblocks (lib_of bs).
